@@ -662,6 +662,12 @@ func (p *pp) handleSpecialValues(value reflect.Value, t reflect.Type, verb rune,
   requires B(p) && WP(p.fmt)
   requires [C05,C08] depth >= 0
   requires t == value.Type()
+  -- which override a wrapper reached by reflection opens is decided by the wrapper that is being printed (the value in
+  -- the slot, not the static type of the slot): Safe() opens the safe override, Unsafe() the unsafe one
+  assert [C02,C05,C06] value.Type() == safeWrapperType before "defer p.startSafeOverride().restore()"
+  assert [C02,C05,C06] value.Type() == unsafeWrapperType before "defer p.startUnsafeOverride().restore()"
+  assert [C02,C05,C06,C08] value.Type() == redactableStringType before "p.buf.WriteString(value.String())"
+  assert [C02,C05,C06,C08] value.Type() == redactableBytesType before "p.buf.Write(value.Bytes())"
   -- what is not handled here is not a wrapper, whatever the static type of the slot it sits in
   ensures [C05,C06,C08,C17] !handled && value.CanInterface() ==> !hasType(value.Interface(), "redact.safeWrapper") && !hasType(value.Interface(), "redact.unsafeWrap")
   may-panic
